@@ -170,7 +170,7 @@ def class_source(i, cls, tmp):
     meta = []
     if cls.get('prefix') is not None:
         meta.append(f'        env_prefix = {cls["prefix"]!r}')
-    if cls['prio'] != 'SCREAMING_SNAKE' or cls.get('prio_explicit'):
+    if cls['prio'] != 'SCREAMING_SNAKE' or cls.get('prio_explicit'):     # the default is left implicit half of the time
         meta.append(f'        key_lookup_with_load = {cls["prio"]!r}')
     if cls.get('dotenv') is not None:
         paths = [os.path.join(tmp, f'f{j}.env') for j in cls['dotenv']]
@@ -374,6 +374,8 @@ class Gen:
                 pool += [p + name, (p + name).upper(), to_snake_ref(p + name), to_snake_ref(p + name).upper()]
                 pool += [p + s for s in spellings(words)[:4]]
             cls = {'fields': fields, 'prio': prio}
+            if rng.random() < 0.5:
+                cls['prio_explicit'] = True
             if prefix is not None:
                 cls['prefix'] = prefix
             classes.append(cls)
@@ -634,7 +636,7 @@ def evaluate(ctx, i, case, res, quirks, reqs, pend):
 
 def run(ctx: C.Ctx):
     rng = ctx.rng
-    ctx.rule = ('histories of ≤ 12 (quick) / ≤ 16 operations — os.environ set/delete, Env.reload(), instantiations of 1-3 generated '
+    ctx.rule = ('directed shapes, an exhaustive small scope (notes.small_scope), then random histories of ≤ 12 (quick) / ≤ 16 operations — os.environ set/delete, Env.reload(), instantiations of 1-3 generated '
                 'EnvWizard classes (str fields named in assorted casings of shared stems, defaults, explicit names via env_field / '
                 'json_field / Meta.field_to_env_var incl. tuples, env_prefix, all four key_lookup_with_load values, Meta or per-call '
                 'dotenv files and secrets dirs incl. empty ones, keyword subsets, _env_prefix overrides, _reload True/False) — over a '
@@ -656,10 +658,11 @@ def run(ctx: C.Ctx):
             case, r = probes[name]
             ctx.fail('probe:' + name, case, f'witness of {key}: last instantiation gave {r["outs"][-1]["out"]}', key=key)
     g = Gen(rng)
-    n = ctx.quick(3000, 50000)
+    n = ctx.quick(2500, 25000)
+    budget = ctx.quick(40, 430)        # seconds for the implementation side; the driver pass follows
     max_ops = ctx.quick(12, 16)
     cases = list(directed_cases())
-    scope = ctx.quick(3, 4)
+    scope = ctx.quick(4, 5)
     cases += list(small_scope_cases(scope))
     ctx.notes['small_scope'] = f'all {len(cases) - len(directed_cases())} histories of length ≤ {scope} over set/del of 3 spellings, ' \
                                f'reload / cached / dotenv instantiation'
@@ -676,8 +679,10 @@ def run(ctx: C.Ctx):
         batch.clear()
         idxs.clear()
 
+    import time
     for i in range(ndirected + n):
-        if ctx.done(i):
+        if ctx.done(i) or (i >= ndirected and ctx.only is None and time.time() - ctx.t0 > budget):
+            ctx.notes['stopped_at'] = i
             break
         case = cases[i] if i < ndirected else g.history(max_ops)
         if not ctx.begin_case(i):
@@ -703,9 +708,8 @@ def run(ctx: C.Ctx):
                 if op['t'] != 'inst':
                     continue
                 ctx.agree('outcome', tag, canon_out(io['out']), canon_out(mo['out']))
-                mref = [[n, ([e[0], sorted(e[1])] if e[0] == 'oneof' else e)] for n, e in mo['ref']]
-                pref = [[n, ([e[0], sorted(e[1])] if e[0] == 'oneof' else e)] for n, e in io['pyref']]
                 # Lean lists one admissible value per matching NAME; compare as sets of values
-                mref = [[n, ([e[0], sorted(set(e[1]))] if e[0] == 'oneof' else e)] for n, e in mref]
+                mref = [[n, ([e[0], sorted(set(e[1]))] if e[0] == 'oneof' else e)] for n, e in mo['ref']]
+                pref = [[n, ([e[0], sorted(set(e[1]))] if e[0] == 'oneof' else e)] for n, e in io['pyref']]
                 ctx.agree('ref', tag, pref, mref)
                 ctx.agree('meets', tag, meets(io['out'], [(n, e) for n, e in io['pyref']]), mo['meets'])
